@@ -2,4 +2,5 @@ SPECIFICATION Spec
 CHECK_DEADLOCK FALSE
 INVARIANTS
   SkipTransparent
+  PartialIsPrefix
   Emit
